@@ -69,7 +69,8 @@ func gstring(s string) string { return "\"" + s + "\"" }
 
 func runC19RPC(e *Env) error {
 	for _, serverPw := range []string{"", "secret"} {
-		for _, clientPw := range []string{"", "wrong", "secret"} {
+		// none, unrelated, the right one, and near misses of the right one: with a suffix, a proper prefix, another case, something prepended
+		for _, clientPw := range []string{"", "wrong", "secret", "secret1", "secret ", "secre", "Secret", "xsecret"} {
 			for _, handler := range []string{"Insert", "Query", "Follow", "HandleRemoteQueries"} {
 				db := &mockDB{calls: map[string]int{}}
 				l, err := net.Listen("tcp", "127.0.0.1:0")
@@ -213,7 +214,7 @@ func runC19Web(e *Env) error {
 			var wg sync.WaitGroup
 			var mx sync.Mutex
 			var results []result
-			for _, header := range []string{"", "wrong", "tok"} {
+			for _, header := range []string{"", "wrong", "tok", "tok1", "to", "Tok", "xtok"} {
 				for _, c := range cookies {
 					for _, rt := range routes {
 						wg.Add(1)
